@@ -246,6 +246,19 @@ cdef class LinearRegressorCriterion(CommonRegressorCriterion):
             )
         return 0
 
+    cdef void _update_weights(self, intp_t start, intp_t end, intp_t old_pos,
+                              intp_t new_pos) noexcept nogil:
+        """
+        Updates members `weighted_n_right` and `weighted_n_left`
+        when `pos` changes.
+        """
+        self.weighted_n_right = 0
+        self.weighted_n_left = 0
+        for k in range(start, new_pos):
+            self.weighted_n_left += self.sample_w[k]
+        for k in range(new_pos, end):
+            self.weighted_n_right += self.sample_w[k]
+
     cdef void _mean(self, intp_t start, intp_t end, float64_t *mean,
                     float64_t *weight) noexcept nogil:
         """
